@@ -37,8 +37,10 @@ def check(tier, seed):
             if k % 40 == 0:
                 reqs = S.all_requests(rng, mt, kt)
             sc = S.scenario(rng, reqs, kt, n_req=rng.choice([2, 2, 3, 4, 6]))
-            if k % 3 == 1:
+            if k % 4 == 1:
                 sc = S.on_tty(rng, sc, 500)         # the same history on the real serial backend over a scripted line
+            elif k % 4 == 3:
+                sc = S.on_gpsd(rng, sc)             # ... and on the real gpsd backend over scripted sockets
             scs.append(sc)
         # two response classes sharing one class/id in one history (library CFG-PRT/UART and an application-defined layout)
         pair = [r for r in reqs if r.label in ('UbxCfgPrtPoll', 'AppCfgPrtUsbPoll')]
